@@ -103,8 +103,16 @@ TRUSTED = [
     "call layer: inf / -inf parameters are sent to the model as a rational beyond every sample (theorems clip_limit_beyond_samples, "
     "zcross_all_inside, unwrap_identity: every such value gives the same output); an endless input is read through take / islice and the "
     "model gets the samples read (all tools are causal; laziness itself is property C02)",
-    "envelope call layer: Float twin, the one-pole design lowpass.pole is ALV.C13.lowpassPole (verified by property C13) evaluated at the "
-    "given cutoff or at the documented default pi/512; compared with tolerance 1e-9",
+    "envelope call layer: Float twin of the generic (TrigField) term ALV.C20.envelopePoleCall, whose design is ALV.C13.lowpassPole itself; "
+    "at R it is proved to be the one-pole recursion y[n] = (1-R) u[n] + R y[n-1] with the documented R and cutoff pi/512 "
+    "(envelope_pole_eq_spec, envelope_pole_contract); the driver also evaluates that recursion (envelopeSpec) at Float; both compared "
+    "with tolerance 1e-9.  A cutoff given per sample (list / tuple / iterator / Stream, shorter or longer than the input): entry "
+    "envelope_var, model envelopeVarCall = spec envelopeVarSpec at R (envelope_var_eq_spec), constant stream = constant cutoff "
+    "(envelope_var_constant, also compared on the real code)",
+    "exactness: unwrap on Fraction / int inputs with a given step is compared with tolerance 0 (theorem rat_unwrap_exact), including steps "
+    "and samples with non-power-of-two denominators and jumps beyond 2**53 with int samples kept as ints; a non-zero memory value `zero` "
+    "is drawn for every maverage strategy, the default maverage(size), amdf and accumulate.z (theorems maverageCall_eq_spec, "
+    "maverage_window_starts_full_of_zero, amdfCall_eq_spec, accumulate_z_memory)",
     "hand-written Lean models ALV/Model/C20.lean of lazy_analysis.{maverage.*,amdf,envelope.*,clip,zcross,unwrap} and "
     "lazy_itertools.accumulate.* (modelled, not verified: collections.deque, itertools.accumulate, the generator protocol, "
     "Fraction/float arithmetic and Python's `%`)",
@@ -120,6 +128,9 @@ ASSUMPTIONS = [
     "size >= 1 (1./0 raises), lag >= 0 with zero=0 or lag >= 1, step > 0, hysteresis >= 0 for the closed zcross "
     "characterisation (negative hysteresis is only tied to the model)",
     "float regime (non power-of-two sizes or non-dyadic samples, envelope): compared with relative tolerance 1e-9",
+    "still outside the model: size / lag spelled as float or Fraction (deque / fir: TypeError, recursive: integral floats work, Fractions "
+    "ValueError; amdf accepts a float lag), non-number samples (str samples are concatenated by accumulate), a mid-stream exception "
+    "followed by continued reads, the default-step (double 2*pi) unwrap of jumps beyond 2**53",
 ]
 MANIFEST = {
     "text": ("Lean 4 theorems, for all inputs / sizes / lags / limits / thresholds: maverage.deque = .recursive = .fir = mean "
@@ -242,6 +253,26 @@ def gen_envelope(rng, tier):
     xs = _seq(rng, _len(rng, tier), rng.random() < 0.5)
     cutoff = rng.choice([math.pi / 512, 0.5, 1.0, rng.uniform(0.01, 3.0), rng.uniform(0.01, 3.0)])
     return {"entry": "envelope", "cutoff": cutoff, "xs": _E(xs), "lp": rng.choice(["default", "default", "default", "default", "pole", "z", "pole_exp", "z_exp"])}
+
+
+def gen_envelope_var(rng, tier):
+    """envelope.*(sig, cutoff=<one cutoff per sample>): list / iterator / Stream of cutoffs, shorter or longer than the input"""
+    n = rng.choice([0, 1, 2, 3, 5, 8, 13, 30])
+    xs = [float(_dy(rng)) for _ in range(n)]
+    m = rng.choice([n, n, n, max(0, n - rng.randint(1, 3)), n + rng.randint(1, 4)])
+    mode = rng.random()
+    if mode < 0.25:          # stays put: must equal the constant-cutoff envelope (theorem envelope_var_constant)
+        cs = [rng.choice([math.pi / 512, 0.5, 1.0])] * m
+    elif mode < 0.5:         # a sweep
+        a, b = rng.uniform(0.01, 3.0), rng.uniform(0.01, 3.0)
+        cs = [a + (b - a) * k / max(1, m - 1) for k in range(m)]
+    else:
+        cs = [rng.choice([math.pi / 512, 0.25, 0.5, 1.0, 2.0, 3.0, rng.uniform(0.01, 3.1)]) for _ in range(m)]
+    c = {"entry": "envelope_var", "xs": _E(xs), "cutoffs": [enc(v) for v in cs], "ckind": rng.choice(["list", "iter", "Stream", "tuple"])}
+    s = rng.choice([None, "rms", "abs", "squared"])
+    if s:
+        c["strategy"] = s
+    return c
 
 
 def gen_clip(rng, tier, combo=None):
@@ -552,7 +583,7 @@ def gen_long(rng, tier):
 
 
 GENS = [(gen_maverage, 18), (gen_accumulate, 10), (gen_amdf, 12), (gen_envelope, 6), (gen_clip, 16),
-        (gen_zcross, 20), (gen_unwrap, 18)]
+        (gen_zcross, 20), (gen_unwrap, 18), (gen_envelope_var, 3)]
 
 
 def _exhaustive():
@@ -682,6 +713,8 @@ def impl(c):
                 "z": _run(zf)}
     if e == "coeffs":
         def co(f):
+            if not isinstance(f, al.LinearFilter):      # the strategy is no longer the filter object the model describes
+                return {"err": "not a LinearFilter: %s" % type(f).__name__}
             den = list(f.denominator)
             if den[0] != 1:
                 return {"err": "a0 != 1"}
@@ -708,6 +741,16 @@ def impl(c):
         # the defining expressions, with the impl's own low-pass
         obs["def_abs"] = _run(lambda: f(abs(x) for x in xs))
         obs["def_squared"] = _run(lambda: f(x ** 2 for x in xs))
+        return obs
+    if e == "envelope_var":
+        fx = [float(x) for x in xs]
+        cs = [float(dec(v)) for v in c["cutoffs"]]
+        kind = c.get("ckind", "list")
+        mk = lambda: cs if kind == "list" else tuple(cs) if kind == "tuple" else iter(cs) if kind == "iter" else al.Stream(cs)
+        f = al.envelope if c.get("strategy") is None else al.envelope[c["strategy"]]
+        obs = {"out": _run(lambda: f(iter(fx), cutoff=mk()))}
+        if cs and len(cs) >= len(fx) and all(v == cs[0] for v in cs):
+            obs["const"] = _run(lambda: f(iter(fx), cutoff=cs[0]))
         return obs
     if e == "clip":
         lo = None if c["low"] is None else _num(c["low"], False, c.get("floats"))
@@ -740,7 +783,7 @@ def impl(c):
 def request(c):
     if _is_call(c):
         return calls.request(c)
-    r = {k: v for k, v in c.items() if k not in ("ints", "floats", "route", "zmode", "cutoff", "lp", "stream")}
+    r = {k: v for k, v in c.items() if k not in ("ints", "floats", "route", "zmode", "cutoff", "lp", "stream", "ckind")}
     if c["entry"] == "envelope":
         f = _lowpass(c)
         if len(c["xs"]) > ENV_FLOAT_LEN:       # long input: the model runs at Float (see TRUSTED)
@@ -849,6 +892,9 @@ def compare(c, io, drv):
         _cmp(out, "spec", "amdf vs moving average of |x[n]-x[n-lag]|", io["out"], drv["spec"], tol)
     elif e == "coeffs":
         for k in ("recursive", "fir", "lag", "acc"):
+            if k not in io:
+                out.append(("model", "coefficients of %s: the impl side failed: %s" % (k, _s(io))))
+                continue
             if "err" in io[k]:
                 out.append(("model", "coefficients of %s: %s" % (k, io[k]["err"])))
                 continue
@@ -873,6 +919,13 @@ def compare(c, io, drv):
                 _cmp(out, "spec", "envelope.rms vs sqrt(lowpass(cutoff)(x^2))", io["rms"], want, TOL)
             else:
                 _cmp(out, "spec", "envelope.rms", io["rms"], io["def_squared"], TOL)
+    elif e == "envelope_var":
+        what = "envelope%s(sig, cutoff=<%s of %d cutoffs>)" % ("" if c.get("strategy") is None else "." + c["strategy"],
+                                                            c.get("ckind", "list"), len(c["cutoffs"]))
+        _cmp(out, "model", what, io["out"], drv["model"], TOL)
+        _cmp(out, "spec", what + " vs y[n] = (1-R(c[n])) u[n] + R(c[n]) y[n-1]", io["out"], drv["spec"], TOL)
+        if "const" in io:
+            _cmp(out, "spec", what + " vs the same constant cutoff given as a number", io["out"], io["const"], TOL)
     elif e == "clip":
         _cmp(out, "model", "clip", io["out"], drv["model"], 0)
         _cmp(out, "spec", "clip vs min(high, max(low, x))", io["out"], drv["spec"], 0)
@@ -968,6 +1021,11 @@ def tally(eng, c, io):
         eng.count("lag", c["lag"] if c["lag"] <= 8 else "9+")
     if e == "envelope":
         eng.count("lowpass", c.get("lp", "default"))
+    if e == "envelope_var":
+        cs = c["cutoffs"]
+        eng.count("envelope_var", "%s:%s, %s" % (c.get("strategy") or "<default>", c.get("ckind"),
+                  "constant" if cs and all(v == cs[0] for v in cs) else "varying"))
+        eng.count("envelope_var_lengths", "cutoffs shorter" if len(cs) < n else "equal" if len(cs) == n else "cutoffs longer")
     if e == "clip":
         lo, hi = c["low"], c["high"]
         combo = ("none" if lo is None else "low") + "-" + ("none" if hi is None else "high")
@@ -1184,6 +1242,15 @@ def _shrink(c):
         yield dict(c, route="args")
     if c["entry"] == "envelope" and c.get("cutoff") != 0.5:
         yield dict(c, cutoff=0.5)
+    if c["entry"] == "envelope_var":
+        cs = c["cutoffs"]
+        if cs:
+            yield dict(c, cutoffs=cs[:-1])
+            yield dict(c, cutoffs=cs[1:])
+            if any(v != cs[0] for v in cs):
+                yield dict(c, cutoffs=[cs[0]] * len(cs))
+        if c.get("ckind") != "list":
+            yield dict(c, ckind="list")
 
 
 def _neighbours(c):
